@@ -1217,7 +1217,11 @@ def who_may_rules(A, fl, rule, parts=('close', 'events', 'flags', 'table')):
                     r = A.resolver.resolve(n, f, ctx_of(f))
                     if 'close' in parts and r.kind == 'repo' and r.is_func(S + '.close'):
                         n_close += 1
-                        kw = {k.arg: txt(k.value) for k in n.keywords}
+                        defs1 = {k_: v_[0] for k_, v_ in A.resolver.local_defs(f).items()
+                                 if len(v_) == 1 and not any(
+                                     isinstance(x, ast.Name) and x.id == k_ for x in ast.walk(v_[0]))}
+                        from sa.expr import subst as _subst
+                        kw = {k.arg: txt(_subst(k.value, defs1)) for k in n.keywords}
                         for h in hq:
                             ent = CLOSE_TABLE.get(h)
                             if ent is None:
